@@ -97,3 +97,81 @@ Proof.
     destruct Ha as [<-|Ha]; [|apply IH; assumption]. rewrite Forall_forall in F. apply F. apply in_or_app. now right.
 Qed.
 End Row.
+
+(* ------------------------------------------------------------------ _cal_levenshtein (default and Hamming mode) *)
+Lemma in_combine_seq0 {A} : forall (l : list A) s idx x, In (idx, x) (combine (seq s (length l)) l) <-> s <= idx /\ nth_error l (idx - s) = Some x.
+Proof.
+  induction l as [|a l IH]; intros s idx x; cbn [length seq combine].
+  - split; [intros []|]. intros [_ H]. destruct (idx - s); discriminate.
+  - cbn [In]. rewrite IH. split.
+    + intros [E|[H1 H2]].
+      * inversion E; subst. rewrite Nat.sub_diag. split; [lia|reflexivity].
+      * split; [lia|]. replace (idx - s) with (S (idx - S s)) by lia. exact H2.
+    + intros [H1 H2]. destruct (Nat.eq_dec idx s) as [->|N].
+      * rewrite Nat.sub_diag in H2. cbn in H2. left. congruence.
+      * right. split; [lia|]. replace (idx - s) with (S (idx - S s)) in H2 by lia. exact H2.
+Qed.
+
+Lemma fold_snoc_map {A B} (f : A -> B) : forall l acc, fold_left (fun ans r => ans ++ [f r]) l acc = acc ++ map f l.
+Proof. induction l as [|a l IH]; intros acc; cbn [fold_left map]; [now rewrite app_nil_r|]. rewrite IH, <- app_assoc. reflexivity. Qed.
+
+Lemma leb_total a b : Nat.leb a b = true \/ Nat.leb b a = true.
+Proof. rewrite !Nat.leb_le. lia. Qed.
+Lemma leb_trans a b c : Nat.leb a b = true -> Nat.leb b c = true -> Nat.leb a c = true.
+Proof. rewrite !Nat.leb_le. lia. Qed.
+
+Section RowLev.
+Variables (hamming levenshtein : str -> str -> nat) (seqs : list str) (k : nat) (is_hamming : bool) (i : nat) (cands : list nat).
+Let scorer := if is_hamming then hamming else levenshtein.
+
+(* the entries extract keeps, before ordering: (choice, score, index) with the index a position of the choice list *)
+Lemma rf_extract_in (choices : list str) (t : str * nat * nat) :
+  In t (rf_extract scorer (nth i seqs []) choices k None) <->
+  nth_error choices (snd t) = Some (fst (fst t)) /\ snd (fst t) = scorer (nth i seqs []) (fst (fst t)) /\ snd (fst t) <= k.
+Proof.
+  unfold rf_extract.
+  match goal with |- In t (py_sorted ?le ?key ?l) <-> _ =>
+    assert (P : In t (py_sorted le key l) <-> In t l)
+      by (split; apply Permutation_in; [apply py_sorted_perm|symmetry; apply py_sorted_perm]); rewrite P; clear P end.
+  rewrite filter_In, in_map_iff, Nat.leb_le. split.
+  - intros [([idx c] & <- & Hin) Hk]. cbn [fst snd] in *. apply in_combine_seq0 in Hin as [_ Hn]. rewrite Nat.sub_0_r in Hn. tauto.
+  - intros (H1 & H2 & H3). destruct t as [[c sc] idx]. cbn [fst snd] in *. split; [|exact H3].
+    exists (idx, c). cbn [fst snd]. split; [now rewrite H2|]. apply in_combine_seq0. rewrite Nat.sub_0_r. split; [lia|exact H1].
+Qed.
+
+(* without max_returns: exactly the candidates other than the query whose (Levenshtein / Hamming) distance is at most max_edits *)
+Theorem gen_cal_levenshtein_spec t :
+  In t (gen_cal_levenshtein hamming levenshtein seqs k None is_hamming i cands) <->
+  exists j, t = (i, j, scorer (nth i seqs []) (nth j seqs [])) /\ In j cands /\ j <> i /\ scorer (nth i seqs []) (nth j seqs []) <= k.
+Proof.
+  unfold gen_cal_levenshtein. fold scorer. cbv zeta. rewrite fold_snoc_map. cbn [app]. rewrite in_map_iff.
+  set (choices := filter (fun y => negb (Nat.eqb y i)) cands).
+  assert (C : forall j, In j choices <-> In j cands /\ j <> i).
+  { intros j. unfold choices. rewrite filter_In, negb_true_iff, Nat.eqb_neq. tauto. }
+  split.
+  - intros (r & <- & Hr). apply rf_extract_in in Hr as (H1 & H2 & H3).
+    rewrite nth_error_map in H1. destruct (nth_error choices (snd r)) as [j|] eqn:Ej; [|discriminate].
+    cbn [option_map] in H1. injection H1 as H1. exists j.
+    assert (Hn : nth (snd r) choices 0 = j) by (apply nth_error_nth; exact Ej).
+    rewrite Hn, H1, <- H2. split; [reflexivity|]. apply nth_error_In in Ej. apply C in Ej. tauto.
+  - intros (j & -> & Hj & Hne & Hk). assert (Hc : In j choices) by (apply C; tauto).
+    apply In_nth_error in Hc as [idx Hidx].
+    exists (nth j seqs [], scorer (nth i seqs []) (nth j seqs []), idx). cbn [fst snd]. split.
+    + rewrite (nth_error_nth _ _ 0 Hidx). reflexivity.
+    + apply rf_extract_in. cbn [fst snd]. rewrite nth_error_map, Hidx. cbn [option_map]. tauto.
+Qed.
+
+(* ascending by distance; with max_returns = m the first m of that list *)
+Theorem gen_cal_levenshtein_limit m :
+  let all := gen_cal_levenshtein hamming levenshtein seqs k None is_hamming i cands in
+  let out := gen_cal_levenshtein hamming levenshtein seqs k (Some m) is_hamming i cands in
+  out = firstn m all /\ StronglySorted (fun a b : nat * nat * nat => snd a <= snd b) all.
+Proof.
+  unfold gen_cal_levenshtein. fold scorer. cbv zeta. rewrite !fold_snoc_map. cbn [app]. unfold rf_extract. split.
+  - rewrite firstn_map. reflexivity.
+  - match goal with |- StronglySorted _ (map ?f (py_sorted ?le ?key ?l)) =>
+      pose proof (py_sorted_sorted le key leb_total leb_trans l) as S; induction S as [|x r S IH F]; cbn [map]; constructor; [exact IH|] end.
+    rewrite Forall_forall in *. intros y Hy. apply in_map_iff in Hy as (z & <- & Hz). cbn [snd]. specialize (F z Hz). unfold key_le in F.
+    apply Nat.leb_le in F. exact F.
+Qed.
+End RowLev.
